@@ -11,7 +11,7 @@ from . import _c03_aux as AUX
 from . import _c03_aux2 as AUX2
 
 ID = "C03"
-LEAN_MODULES = ["NiftyVerif.Core.Proto", "NiftyVerif.Model.Expr", "NiftyVerif.Model.ExprIO", "NiftyVerif.Props.C03Ptw", "NiftyVerif.Props.C03Sinc", "NiftyVerif.Props.C03", "NiftyVerif.Props.C03Adj"]
+LEAN_MODULES = ["NiftyVerif.Core.Proto", "NiftyVerif.Model.Expr", "NiftyVerif.Model.ExprIO", "NiftyVerif.Props.C03Ptw", "NiftyVerif.Props.C03Sinc", "NiftyVerif.Props.C03", "NiftyVerif.Props.C03Adj", "NiftyVerif.Props.C03Complex", "NiftyVerif.Model.Cplx"]
 DRIVER = "Driver/C03.lean"
 TRANSLATORS = [t2_pointwise.translate]
 _PTW = ["sqrt", "sin", "cos", "tan", "exp", "expm1", "log", "log10", "log1p", "sinh", "cosh", "tanh", "sigmoid",
@@ -21,7 +21,8 @@ OBLIGATIONS = (["NiftyVerif.C03.ptw_hval_eq_val"] + ["NiftyVerif.C03.ptw_hasDeri
                + ["NiftyVerif.C03.ptw_hasDerivAt_sinc_zero", "NiftyVerif.C03.ptw_hasDerivAt_sinc_all", "NiftyVerif.C03.ptw_kink_abs", "NiftyVerif.C03.ptw_kink_clip", "NiftyVerif.C03.ptw_kink_sinc",
                   "NiftyVerif.C03.ptw_table_hasDerivAt", "NiftyVerif.C03.lin_val", "NiftyVerif.C03.lin_hasDerivAt",
                   "NiftyVerif.C03.metric_carried", "NiftyVerif.C03.metric_gauss", "NiftyVerif.C03.metric_sum",
-                  "NiftyVerif.C03.metric_sum_none", "NiftyVerif.C03.metric_scale", "NiftyVerif.C03.jac_adjoint"])
+                  "NiftyVerif.C03.metric_sum_none", "NiftyVerif.C03.metric_scale", "NiftyVerif.C03.jac_adjoint",
+                  "NiftyVerif.C03.ptw_table_hasDerivAt_c", "NiftyVerif.C03.lin_hasDerivAt_c"])
 RULE = ("(1) T2: every ptw_dict entry on a float grid over its valid range incl. kinks (value, helper value, derivative) "
         "vs the regenerated Lean definitions; (2) generated operator trees (<=16 nodes; var/add/sub/mul/scale/addc/mulc/"
         "ptw/lin/sum/vdot/getKey/putKey/chain/sqnorm/quad/gauss) over single and multi-domains, dyadic inputs, "
